@@ -36,6 +36,13 @@ var seams = map[string]rule{
 }
 
 func main() {
+	if len(os.Args) == 4 && os.Args[1] == "--literals" {
+		if err := literals(os.Args[2], os.Args[3]); err != nil {
+			fmt.Println("instr: literals:", err)
+			os.Exit(3)
+		}
+		return
+	}
 	if len(os.Args) < 4 {
 		fmt.Println("usage: instr <repo> <outdir> <seam>...")
 		os.Exit(2)
